@@ -273,6 +273,8 @@ class BuiltinMixin:
             r = z3.Function("str_of_flt", Flt, S)(v.t)
             st.assume(z3.Function("decimal_wellformed", S, B)(r))  # str(float) ('1.5','inf','nan') is valid Decimal text
             return [(st, VStr(r))]
+        if isinstance(v, (VU, VOpaque)) and self.is_path(v):
+            return [(st, VStr(z3.Function("path_str", U, S)(v.t)))]
         if isinstance(v, (VU, VOpaque)):
             t = v.t
             f = repr_of_u if conv == "repr" else str_of_u
@@ -1269,6 +1271,108 @@ class BuiltinMixin:
                 s.assume(z3.Implies(found, z3.And(i >= 0, i + z3.Length(sep) <= z3.Length(sv.t))))
                 out.append((s, VTuple((VStr(before), VStr(mid), VStr(after)))))
         return out
+
+    # ------------------------------------------------------------ pathlib model (DESIGN 3)
+    # a path is an opaque value with: name, suffix, is_absolute, "has a '..' part";
+    # joinpath(base, q) stays inside base iff q is relative and has no '..' part.
+
+    P_NAME = z3.Function("path_name", U, S)
+    P_SUFFIX = z3.Function("path_suffix", U, S)
+    P_ABS = z3.Function("path_is_absolute", U, B)
+    P_PARDIR = z3.Function("path_has_pardir_part", U, B)
+    P_JOIN = z3.Function("path_join", U, U, U)
+    P_WITH_SUFFIX = z3.Function("path_with_suffix", U, S, U)
+    P_OF_STR = z3.Function("path_of_str", S, U)
+
+    def is_path(self, v):
+        return isinstance(v, (VU, VOpaque)) and z3.is_app(v.t) and v.t.get_id() in self.__dict__.setdefault("_paths", set())
+
+    def mk_path(self, st, term):
+        self.__dict__.setdefault("_paths", set()).add(term.get_id())
+        st.assume(U.is_ref(term))
+        return VOpaque(term, "path")
+
+    def b_pathlib_Path(self, st, args, kwargs):
+        (v,) = args
+        if self.is_path(v):
+            return [(st, v)]
+        if isinstance(v, (VU, VOpaque)):
+            out = []
+            for s, tv in self.split_tags(st, v):
+                if isinstance(tv, VStr):
+                    out.extend(self.b_pathlib_Path(s, [tv], {}))
+                else:
+                    out.append(self.raised(s, "TypeError", "expected str, bytes or os.PathLike object"))
+            return out
+        if not isinstance(v, VStr):
+            return [self.raised(st, "TypeError", "expected str, bytes or os.PathLike object")]
+        return [(st, self.mk_path(st, self.P_OF_STR(v.t)))]
+
+    def path_attr(self, st, p, name):
+        if name == "name":
+            return [(st, VStr(self.P_NAME(p.t)))]
+        if name == "suffix":
+            return [(st, VStr(self.P_SUFFIX(p.t)))]
+        if name == "parts":
+            return [(st, VConst(("path-parts", p)))]
+        return [(st, VBuiltin(f"Path.{name}", p))]
+
+    def m_Path_is_absolute(self, st, p, args, kwargs):
+        return [(st, VBool(self.P_ABS(p.t)))]
+
+    def m_Path_with_suffix(self, st, p, args, kwargs):
+        suf = self._s(args[0])
+        out = []
+        for s, empty in self.branch(st, z3.Length(self.P_NAME(p.t)) == 0):
+            if empty:
+                out.append(self.raised(s, "ValueError", "path has an empty name"))
+                continue
+            q = self.P_WITH_SUFFIX(p.t, suf)
+            # with_suffix only rewrites the last component's suffix
+            s.assume(z3.And(self.P_ABS(q) == self.P_ABS(p.t), self.P_PARDIR(q) == self.P_PARDIR(p.t), z3.Length(self.P_NAME(q)) > 0))
+            out.append((s, self.mk_path(s, q)))
+        return out
+
+    def m_Path_joinpath(self, st, p, args, kwargs):
+        q = args[0]
+        if isinstance(q, VStr):
+            qt = z3.simplify(q.t)
+            if z3.is_app(qt) and qt.decl().name() == "path_str":
+                q = self.mk_path(st, qt.arg(0))  # Path(str(p)) == p
+            else:
+                q = self.mk_path(st, self.P_OF_STR(q.t))
+        return [(st, self.mk_path(st, self.P_JOIN(p.t, q.t)))]
+
+    def _path_fs_bool(self, st, p, name, raising=("OSError",)):
+        out = []
+        for s, r in self.opaque_call(st, f"Path.{name}", [p], may_raise=raising):
+            out.append((s, r if isinstance(r, Raised) else VBool(self.truth(s, r))))
+        return out
+
+    def m_Path_exists(self, st, p, args, kwargs):
+        return self._path_fs_bool(st, p, "exists")
+
+    def m_Path_is_file(self, st, p, args, kwargs):
+        return self._path_fs_bool(st, p, "is_file")
+
+    def m_Path_resolve(self, st, p, args, kwargs):
+        out = []
+        for s, r in self.opaque_call(st, "Path.resolve", [p], may_raise=("OSError",)):
+            out.append((s, r if isinstance(r, Raised) else self.mk_path(s, r.t)))
+        return out
+
+    def m_Path_is_relative_to(self, st, p, args, kwargs):
+        return [(st, VBool(z3.Function("path_is_relative_to", U, U, B)(p.t, args[0].t)))]
+
+    def m_Path_read_text(self, st, p, args, kwargs):
+        out = []
+        mr = () if getattr(self.config, "files_readable", False) else ("OSError", "UnicodeDecodeError")
+        for s, r in self.opaque_call(st, "Path.read_text", [p], may_raise=mr):
+            out.append((s, r if isinstance(r, Raised) else VStr(z3.Function("file_text", U, I, S)(p.t, z3.IntVal(s.world)))))
+        return out
+
+    def m_Path_stat(self, st, p, args, kwargs):
+        return self.opaque_call(st, "Path.stat", [p], may_raise=("OSError",))
 
     # ------------------------------------------------------------ probes / io
 
